@@ -238,6 +238,9 @@ class HybridGibbs:
             if not isinstance(sampler, NUTS): # Again, special case for NUTS.
                 sampler.set_state(sampler_state)
                 sampler.set_history(sampler_history)
+                # The restored state holds target evaluations cached under the previous conditional
+                # target. Re-evaluate them for the new target at the current point.
+                self._refresh_cached_target_evaluations(sampler)
 
             # Run pre_warmup and pre_sample methods for sampler
             # TODO. Some samplers (NUTS) seem to require to run _pre_warmup before _pre_sample
@@ -256,6 +259,16 @@ class HybridGibbs:
                 self.current_samples[par_name] = sampler.current_point.reshape(-1)
             else:
                 self.current_samples[par_name] = sampler.current_point
+
+    @staticmethod
+    def _refresh_cached_target_evaluations(sampler):
+        """ Re-evaluate state variables that cache evaluations of the (just replaced) target. """
+        if 'current_target_logd' in sampler._STATE_KEYS:
+            sampler.current_target_logd = sampler.target.logd(sampler.current_point)
+        if 'current_target_grad' in sampler._STATE_KEYS:
+            sampler.current_target_grad = sampler.target.gradient(sampler.current_point)
+        if 'current_likelihood_logd' in sampler._STATE_KEYS:
+            sampler.current_likelihood_logd = sampler._loglikelihood(sampler.current_point)
 
     def tune(self, skip_len, update_count):
         """ Run a single tuning step on each of the samplers in the Gibbs sampling scheme
